@@ -105,7 +105,10 @@ func genC07(t *rapid.T, w *world.World) caseC07 {
 		tr.RawData = []byte(pick(t, "json", []string{`{}`, `null`, `[]`, `{"denom":"x"}`, `{"receiver":1}`, `{"denom":"uusdc","amount":"1","sender":"a","receiver":"b"}`, `"` + world.OrbiterAddr.String() + `"`}))
 	}
 	if kit.Chance(t, "ids", 15) {
-		v := pick(t, "srcchan", []string{"channel-0", "channel-123", "channel-7", "channel-4294967296"})
+		// the source channel is the COUNTERPARTY's identifier: any ICS-24 identifier (8-64 characters
+		// of the allowed set), not only channel-N
+		v := pick(t, "srcchan", []string{"channel-0", "channel-123", "channel-7", "channel-4294967296", "channel07", "ibcchannel-07", "ChannelToNoble",
+			"connection-0.channel-3", "channel-007", "a-channel-identifier-of-forty-characters"})
 		tr.SrcChannel = &v
 	}
 	if kit.Chance(t, "dstchan", 20) {
